@@ -75,11 +75,50 @@ def check(hyps, goal, timeout_ms=10000, want_model=True, second=False, first_ms=
     q = q + ground_axioms(q)
     t0 = time.time()
 
+    def guarded(ms):
+        """run the in-process check in a forked child first: z3 5.1.0 can overrun its timeout and ignore interrupts on recursive
+        definitions; the parent only repeats a check the child finished in time (models cannot cross the process boundary)"""
+        r_fd, w_fd = os.pipe()
+        pid = os.fork()
+        if pid == 0:
+            try:
+                os.close(r_fd)
+                s = z3.Solver()
+                s.set('timeout', ms)
+                s.add(*q)
+                os.write(w_fd, str(s.check()).encode())
+            finally:
+                os._exit(0)
+        os.close(w_fd)
+        import select
+        ready, _, _ = select.select([r_fd], [], [], ms / 1000.0 + 3.0)
+        ans = os.read(r_fd, 32).decode() if ready else ''
+        os.close(r_fd)
+        if not ready:
+            try:
+                os.kill(pid, 9)
+            except OSError:
+                pass
+        os.waitpid(pid, 0)
+        if ans == 'sat':
+            return inproc(ms * 2)
+        return (z3.unsat if ans == 'unsat' else z3.unknown), None
+
     def inproc(ms):
+        import threading
         s = z3.Solver()
         s.set('timeout', ms)
         s.add(*q)
-        r = s.check()
+        # z3 5.1.0 sometimes overruns its own timeout on recursive definitions: a watchdog interrupts the context
+        wd = threading.Timer(ms / 1000.0 + 2.0, lambda: z3.main_ctx().interrupt())
+        wd.daemon = True
+        wd.start()
+        try:
+            r = s.check()
+        except z3.Z3Exception:
+            r = z3.unknown
+        finally:
+            wd.cancel()
         return r, (s.model() if r == z3.sat else None)
     size = sum(len(x.sexpr()) for x in q[:50])
     bk = f"z3py-{z3.get_version_string()}"
@@ -113,7 +152,7 @@ def check(hyps, goal, timeout_ms=10000, want_model=True, second=False, first_ms=
         res['second'] = sec
     if r == z3.unknown or second:
         # stage 2: z3 5.1.0 in process with the definitions: the only source of models
-        r2, model = inproc(timeout_ms)
+        r2, model = guarded(timeout_ms)
         if r == z3.unknown and res['result'] == 'sat':
             if str(r2) == 'sat':
                 res.update(model=model)
